@@ -42,6 +42,9 @@ Fixpoint rows_code (h : list (fqty * @snap FX)) (rs : list row) (i : N) : N * N 
   | (t, s) :: h', r :: rs' => let c := row_code t s r in if N.eqb c 0 then rows_code h' rs' (N.succ i) else (c, i)
   | _, _ => (11, i)%N
   end.
+Definition exn_code (e : exn) : N :=
+  match e with TypeError => 1 | ValueError => 2 | KeyError => 3 | ZeroDivisionError => 4 | NameError => 5 | IndexError => 6
+             | AttributeError => 7 | OracleMiss => 8 | OutOfFuel => 9 end.
 Definition case_code (k : scase) : N * N :=
   let r := exec (k_chain k) (eval_load (k_load k)) (k_ops k) (initial (k_pos0 k) (k_spd0 k)) in
   match r, k_expect k with
@@ -50,7 +53,7 @@ Definition case_code (k : scase) : N * N :=
       if negb (N.eqb c 0) then (c, i) else if Bool.eqb (y_locked st) locked then (0, 0)%N else (10, 0)%N
   | Err e, EErr e' => if exn_eqb e e' then (0, 0)%N else (12, 0)%N
   | Ok _, EErr _ => (13, 0)%N
-  | Err _, EHist _ _ => (14, 0)%N
+  | Err e, EHist _ _ => (14, exn_code e)%N
   end.
 Fixpoint failing_from (i : N) (l : list scase) : list (N * (N * N)) :=
   match l with
